@@ -252,7 +252,14 @@ def generate(rng, config):
                   else None,
                   "fmt": rng.choice(fmts[:2] * 3 + fmts[2:]),
                   "explicit": rng.random() < 0.5}
+    position = None
+    if config == "cli":
+        position = rng.choice({
+            "simple": ["kcolor", "iso", "iso2", "iso2", "kclique", "domset"],
+            "bipartite": ["php", "subsetcard", "xorcomp", "majcomp"],
+            "dag": ["peb", "stone"]}[gtype])
     return {"type": gtype, "construction": c, "args": args, "mods": mods,
+            "position": position,
             "save": save, "cli": config == "cli", "resave": resave,
             "locale": rng.choice([None, None, None, "ascii", "latin-1"]),
             "save_pos": rng.randint(0, len(mods)) if save else None,
@@ -1057,8 +1064,20 @@ def _exec_cli(case, ctx):
     if case.get("locale"):
         fs.locale_encoding = case["locale"]
     spec = _spec(case)
-    fam = {"simple": ["kcolor", "1"], "bipartite": ["php"],
-           "dag": ["peb"]}[gtype]
+    # the places of a command line where a graph specification is read
+    pos = case.get("position") or {"simple": "kcolor", "bipartite": "php",
+                                   "dag": "peb"}[gtype]
+    L = case["args"][0] if case["args"] else ""
+    if pos in ("xorcomp", "majcomp") and not (_plain_int(L) and
+                                              1 <= int(L) <= 8):
+        pos = "php"
+    fam = {"kcolor": ["kcolor", "1"], "iso": ["iso"],
+           "iso2": ["iso", "complete", "3", "-e"], "kclique": ["kclique", "2"],
+           "domset": ["domset", "1"], "php": ["php"],
+           "subsetcard": ["subsetcard"],
+           "xorcomp": ["and", L, "0", "-T", "xorcomp"],
+           "majcomp": ["and", L, "0", "-T", "majcomp"],
+           "peb": ["peb"], "stone": ["stone", "2"]}[pos]
     argv = ["cnfgen", "-q"] + fam + spec
     sim = SimRandom(case["prng"]["seed"], case["prng"]["strategy"],
                     case["prng"]["budget"], max_draws=60_000)
@@ -1094,12 +1113,23 @@ def _exec_cli(case, ctx):
         raise Violation("C15/cli/save-unreadable", "%s\n%r\n%r" %
                         (where, rr[1], data[:300]))
     Gs = rr[1]
-    if gtype == "simple":
-        F2 = cnfgen.GraphColoringFormula(Gs, 1)
-    elif gtype == "bipartite":
-        F2 = cnfgen.GraphPigeonholePrinciple(Gs)
-    else:
-        F2 = cnfgen.PebblingFormula(Gs)
+    if pos in ("xorcomp", "majcomp"):
+        climsg._prefix = ""
+        with open_router(fs):
+            F0 = cnfgen_cli(["cnfgen", "-q", "and", L, "0"], mode="formula")
+        climsg._prefix = ""
+    F2 = {"kcolor": lambda: cnfgen.GraphColoringFormula(Gs, 1),
+          "iso": lambda: cnfgen.GraphAutomorphism(Gs),
+          "iso2": lambda: cnfgen.GraphIsomorphism(
+              cnfgen.Graph.complete_graph(3), Gs),
+          "kclique": lambda: cnfgen.CliqueFormula(Gs, 2),
+          "domset": lambda: cnfgen.DominatingSet(Gs, 1),
+          "php": lambda: cnfgen.GraphPigeonholePrinciple(Gs),
+          "subsetcard": lambda: cnfgen.SubsetCardinalityFormula(Gs),
+          "xorcomp": lambda: cnfgen.VariableCompression(F0, Gs, "xor"),
+          "majcomp": lambda: cnfgen.VariableCompression(F0, Gs, "maj"),
+          "peb": lambda: cnfgen.PebblingFormula(Gs),
+          "stone": lambda: cnfgen.StoneFormula(Gs, 2)}[pos]()
     if F.number_of_variables() != F2.number_of_variables() or \
             list(F) != list(F2):
         raise Violation("C15/cli/save-is-not-the-graph-used",
@@ -1110,6 +1140,7 @@ def _exec_cli(case, ctx):
                                      len(F)))
     ctx.nontrivial = True
     ctx.probe("cli save:%s" % fmt)
+    ctx.probe("cli graph read at: %s" % pos)
 
 
 from checks import graphviews  # noqa: E402  (after the definitions above)
